@@ -21,7 +21,7 @@ func C16(r *core.Report) {
 		"R4 NewMultiReaderAt computes offsets as exclusive prefix sums (offsets[i] is stored before the size is added, starting from 0); " +
 		"R5 in MultiReaderAt.ReadAt io.EOF is returned only when the reached-end flag is known true, that flag is set only for the last segment's io.EOF, every other error is returned, and each segment is read at off minus that segment's own start; " +
 		"R6 in the split-car callback the decision to start a new piece is taken before the block's objects are written, the writing closures cannot reach it (a block with its objects lands in one piece), and the objects are written in the order children-then-block that they were collected in. " +
-		"R8 the header bytes the split command records are copied from the input stream (io.CopyN / ReadFull from the reader parameter), never produced by an encoder. Not decided: concrete byte equality, size arithmetic, what carlet metadata from other tools contains."
+		"R8 the header bytes the split command records are copied from the input stream (io.CopyN / ReadFull from the reader parameter), never produced by an encoder. R9 the output files of the split are created empty (os.Create, or OpenFile with O_TRUNC / O_EXCL). Not decided: concrete byte equality, size arithmetic, what carlet metadata from other tools contains."
 	c16Accounting(r)
 	checkUvarintLenIdiom(r, "C16.R1", "accum", "main")
 	c16Pairing(r)
@@ -41,6 +41,7 @@ func C16(r *core.Report) {
 	r.Floor("C16.R4", 2)
 	r.Floor("C16.R5", 4)
 	c16HeaderBytesComeFromTheStream(r)
+	c16PieceFilesStartEmpty(r)
 	r.Floor("C16.R6", 3)
 }
 
@@ -995,7 +996,7 @@ func c16OnePiecePerBlock(r *core.Report) {
 					wobj = l
 				}
 			}
-			if core.CalleeName(info, c) == "os.Create" {
+			if nm := core.CalleeName(info, c); nm == "os.Create" || nm == "os.OpenFile" {
 				create = l
 			}
 		}
